@@ -21,6 +21,8 @@ TECH = {
  "C13": "row/column `SFunction` of the unify() dispatch table; unify_sfunction cell shape",
  "C14": "finite-domain (ordering) evaluation of every comparison arm on MIR paths; registry-chain agreement",
  "C15": "typestate of element vectors: inventory of list builders classified element-opaque / element-inspecting from MIR paths, who-may-call rule on the inspecting (splicing) constructor with last-pushed-element variant refinement; count(next)+1 arithmetic of every SLinkedList aggregate on bounded-unrolled MIR paths; direction agreement between front-linking and element source — structural clauses of the property, the lists computed at run time are not decided",
+ "C16": "MIR-path rules on the function dispatched for `append`: provenance of every contribution to the collected vector (current argument, through a tail-following list walk, never a whole list), argument order via iterator element provenance, result wiring; sibling agreement of list walks on tail-variable handling; includes C15's who-may-call rule on the splicing constructor — structural clauses only",
+ "C17": "sibling cross-check of every built-in's list walk (tail-variable flag read, lookup with the substitution set, continuation into the bound list) on MIR paths; wiring of count / include / exclude; polarity and binds-nothing rules of the filter (outcome of the trial unification vs. flag, trial set used only as a test) — structural clauses only, functor and join are not decided",
  "C18": "panic-site inventory over parser-reachable MIR (explicit panics, unwraps, bounds/overflow asserts) with guard-based discharge",
  "C19": "writer/reader agreement between the token-grouping passes and the token-tree-to-goal pass (token kinds produced vs. handled, union over MIR paths); registry agreement Display(Infix) vs. the infix scanners — one structural clause of the property, the round trip itself is not decided",
  "C22": "inventory of process-wide mutable state read by the solver; must-write rule for query constructors",
@@ -28,8 +30,6 @@ TECH = {
  "C24": "closed-world audit of unsafe operations in MIR: static-access thread reachability, raw-pointer provenance, liveness of node references across cutting calls",
 }
 NA = {
- "C16": "append's result is a function of runtime list contents and bindings; its only shape clause (runs at most once) is the one-shot guard already decided under C04/C05",
- "C17": "count/filter/functor/join results quantify over runtime lists, binding chains and strings; no clause is visible in the shape of the code",
  "C20": "context-independence means two hand-written character classifiers agree on every string (program equivalence); a 'must share one helper' rule would fire on behaviour-preserving code",
  "C21": "file loading vs rule-by-rule parsing depends on line joining, comment stripping and period splitting over all texts; only a thin error-discipline clause is structural, too small to claim the property through",
 }
